@@ -172,6 +172,8 @@ class CallMixin:
         args = self.args_of(node)
         if not args:
             return mk_str("")
+        if args[0].py is not None:
+            return self.ctx.fresh(TStr, "str")
         return self.to_str(args[0])
 
     def bi_bool(self, node):
@@ -588,6 +590,11 @@ class CallMixin:
             return self.dict_method(base, attr, node)
         if ty is TStr:
             return self.str_method(base, attr, node)
+        if isinstance(ty, TOpaque):
+            q = f"{ty._n}.{attr}"
+            if q in self.reg.contracts:
+                return self.call_contract(self.reg.contracts[q], base, node)
+            raise Unsupported(f"no contract for {q}", node)
         if isinstance(ty, TRef) or (isinstance(ty, TOpt) and isinstance(ty.inner, TRef)):
             if isinstance(ty, TOpt):
                 self.may_raise("AttributeError", z3.Not(ty.is_none(base.t)), node, "None." + attr)
